@@ -16,7 +16,8 @@ from pmon.checks import _trees
 ID = 'C11'
 RULE = ('graphs decoded from WF-T trees over the AMR role inventory (reifiable roles on edges, '
         'attributes, inverted edges, re-entrancies, aligned roles/targets, pre-existing variables _ '
-        'and _2) with no dereifiable concept initially and only roles whose reification is '
+        'and _2; every 8th graph is a hub with 11-16 reifiable relations so that generated variables '
+        'reach two-digit indices) with no dereifiable concept initially and only roles whose reification is '
         'unambiguous in the model (this excludes :subset/:superset under AMR); models AMR, mini-AMR, '
         'random unambiguous tables, default (no-op case); second workload: explicit reified nodes '
         'in six situations {plain, extra relation, is top, referenced, wrong roles, one relation}. '
@@ -26,7 +27,7 @@ ANCHORS = ['penman.transform:reify_edges', 'penman.transform:dereify_edges',
            'penman.transform:_reified_markers', 'penman.model:Model.reify', 'penman.model:Model.dereify']
 PROBES = {'C17': 6}
 MIN_EVAL = {'quick': 3000, 'thorough': 60000}
-REQUIRED_COUNTERS = ['with_reifiable', 'inverted_reifiable', 'aligned_reifiable', 'kind:plain',
+REQUIRED_COUNTERS = ['with_reifiable', 'inverted_reifiable', 'aligned_reifiable', 'kind:plain', 'wide_graphs',
                      'kind:referenced', 'kind:top', 'kind:extra']
 MODELS_R = ['amr', 'amr', 'mini', 'amr', 'rand1', 'rand2', 'rand3', 'rand5', 'default', 'rand10']
 AMR_ROLES = [':ARG0', ':ARG1', ':ARG2', ':mod', ':domain', ':op1', ':op2', ':polarity', ':quant',
@@ -128,7 +129,13 @@ def oracle(ctx, kind, p):
         mname = MODELS_R[p['i'] % len(MODELS_R)]
         _, model, rm, _ = M.get(mname)
         concepts = [c for c in CONCEPTS if not rm.dereifiable(c)]
-        node = T.rand_tree(rng, rm, roles=role_pool(rm), concepts=concepts, p_aln=0.3)
+        if p['i'] % 8 == 7:
+            # enough reifiable relations for the generated variables to reach _10, _11 ...
+            pool = [r for r in role_pool(rm) if rm.reifiable(r)] or role_pool(rm)
+            node = T.wide_tree(rng, rm, pool)
+            ctx.count('wide_graphs')
+        else:
+            node = T.rand_tree(rng, rm, roles=role_pool(rm), concepts=concepts, p_aln=0.3)
         if not _trees.wellformed(node, rm):
             return
         ok, g = ctx.call(layout.interpret, Tree(node), model, clause='pre-interpret')
@@ -154,7 +161,10 @@ def oracle(ctx, kind, p):
         rng.shuffle(rel)
         k = rng.choice(['plain', 'extra', 'top', 'referenced', 'wrongroles', 'one'])
         if k == 'extra':
-            rel.append(('r', rng.choice([':polarity', ':ARG3', ':time']), rng.choice(['-', 'a'])))
+            # a third relation - possibly repeating one of the two argument roles
+            rel.append(('r', rng.choice([':polarity', ':ARG3', ':time', tr, sr]), rng.choice(['-', 'a', '8'])))
+            if len(set(rel)) != len(rel):
+                rel = list(dict.fromkeys(rel)) + [('r', ':ARG3', '-')]
         if k == 'referenced':
             tri.append(('b', ':ARG1', 'r'))
         if k == 'wrongroles':
